@@ -281,8 +281,8 @@ def _get_inline_comment_at_line(code_lines: list[str], line: int) -> str:
         return ""
     except (tokenize.TokenError, SyntaxError):
         # The line isn't a complete statement (e.g. it opens a multi-line expression) and has no
-        # comment before the point where tokenizing stops: use everything after the first "#".
-        return line_str.split("#", maxsplit=1)[1].strip()
+        # comment before the point where tokenizing stops: the "#" is inside a string, not a comment.
+        return ""
 
 
 def _get_comment_ending_at_line(code_lines: list[str], line: int) -> str:
